@@ -393,10 +393,11 @@ Definition after_size (c : tr_cfg) (p : tr_npayload) (e : tr_entry) (sc : tr_sch
   end.
 
 Lemma r_size_v2 c p e left st names sc sch op : tr_pipeline c = true ->
+  tr_rest_mismatch (mkRSx (RpSize p) left st names (sc :: sch) op) (te_size e) = false ->
   tr_r_size digest c (mkRSx (RpSize p) left st names (sc :: sch) op) p (te_size e) =
   (mkRSx (after_size c p e sc) left st names (sc :: sch) op, [TrSuccInt digest (te_size e)]).
 Proof.
-  intro Hp. unfold tr_r_size, after_size. rewrite Hp. destruct (tr_is_compress_fixed c (te_size e)) as [[|] cp]; reflexivity.
+  intros Hp Hm. unfold tr_r_size, after_size. rewrite Hm, Hp. destruct (tr_is_compress_fixed c (te_size e)) as [[|] cp]; reflexivity.
 Qed.
 
 Lemma recv_comp c d p e sc s left st names sch op q r2s log :
@@ -454,15 +455,16 @@ Definition tail_steps (c : tr_cfg) (e : tr_entry) (sc : tr_sched) : nat :=
 Lemma file_tail_v2 c d p e sc rest snames left st rnames sch op L :
   tr_pipeline c = true -> table_ok c -> bytes_ok (te_data e) = true -> te_isdir e = false ->
   (tr_p_archive p = true -> exists t, tr_unarchive aparse (tr_p_aid p) sc (te_data e) = Some t) ->
+  tr_rest_mismatch (mkRSx (RpSize p) left st rnames (sc :: sch) op) (te_size e) = false ->
   runf (tail_steps c e sc) c d
     (mkConf digest (mkSS SpSize ((e, sc) :: rest) snames) (mkRSx (RpSize p) left st rnames (sc :: sch) op)
        [TrSize digest (te_size e)] [] L) =
   mkConf digest (mkSS SpMd5 ((e, sc) :: rest) snames) (mkRSx (RpMd5 p (te_data e)) left st rnames (sc :: sch) op)
     [TrMd5 digest (H (te_data e))] [] (L ++ tail_log c e sc).
 Proof.
-  intros Hp Ht Hb Hd Ha. unfold tail_steps.
+  intros Hp Ht Hb Hd Ha Hm. unfold tail_steps.
   (* SIZE -> echo *)
-  rewrite run_add, (run_one _ _ _ _ (step_recv' _ _ _ _ _ _ _ _)), rcv_size, (r_size_v2 c p e _ _ _ sc _ _ Hp). cbn [fst snd app].
+  rewrite run_add, (run_one _ _ _ _ (step_recv' _ _ _ _ _ _ _ _)), rcv_size, (r_size_v2 c p e _ _ _ sc _ _ Hp Hm). cbn [fst snd app].
   (* echo -> [COMP] frames finish *)
   rewrite run_add, (run_one _ _ _ _ (step_send' _ _ _ _ _ _ _)), snd_size.
   unfold tr_s_data. rewrite Hp. cbn [ss_names ss_todo fst snd].
@@ -541,7 +543,7 @@ Proof.
   rewrite (step_send' _ _ _ _ _ _ _), snd_name.
   replace (if tr_json_names c then 0 else 0) with 0 by (destruct (tr_json_names c); reflexivity).
   unfold tr_s_named. rewrite Hsub, andb_false_r, Hd, N.ltb_irrefl. cbn [ss_names ss_todo fst snd].
-  rewrite run_add, (file_tail_v2 c d (tr_payload c e) e sc ess _ _ _ _ _ None _ Hp Ht Hb Hd).
+  rewrite run_add, (file_tail_v2 c d (tr_payload c e) e sc ess _ _ _ _ _ None _ Hp Ht Hb Hd); [| |reflexivity].
   2:{ rewrite payload_archive, Hsub, andb_false_r. discriminate. }
   rewrite (md5_steps c d (tr_payload c e) e sc ess (length ess) st _ (map snd ess) None _ st' ); [|  | reflexivity | reflexivity].
   - unfold file_log_v2. f_equal. norm_log. reflexivity.
@@ -624,7 +626,7 @@ Lemma r_size_v1 c e left st names sch : tr_pipeline c = false ->
   tr_r_size digest c (mkRS (RpSize (tr_payload c e)) left st names sch) (tr_payload c e) (te_size e) =
   (mkRS (if 0 <? te_size e then RpV1 (tr_payload c e) (te_size e) [] else RpMd5 (tr_payload c e) []) left st names sch,
    [TrSuccInt digest (te_size e)]).
-Proof. intro Hp. unfold tr_r_size. rewrite Hp. destruct (0 <? te_size e); reflexivity. Qed.
+Proof. intro Hp. unfold tr_r_size, tr_rest_mismatch. cbn [rs_open]. rewrite Hp. destruct (0 <? te_size e); reflexivity. Qed.
 
 Definition steps_v1 (e : tr_entry) (sc : tr_sched) : nat :=
   1 + (1 + (1 + (1 + (dbl (length (tr_v1_chunks e sc)) + 2)))).
@@ -677,17 +679,17 @@ Notation hack_of := (tr_hack digest).
 
 Lemma rcv_hsize c d left st names sch op p leaf old n :
   receiver c d (mkRSx (RpHSize p leaf old) left st names sch op) (TrSize digest n) =
-  (mkRSx (RpHash p leaf old Resume.r_init) left st names sch op, []).
+  (mkRSx (RpHash p leaf old n Resume.r_init) left st names sch op, []).
 Proof. reflexivity. Qed.
 
-Lemma rcv_hash c d left st names sch op p leaf old r s h :
-  receiver c d (mkRSx (RpHash p leaf old r) left st names sch op) (TrHash digest s h) =
-  tr_r_hash digest hx (mkRSx (RpHash p leaf old r) left st names sch op) p leaf old r s h.
+Lemma rcv_hash c d left st names sch op p leaf old sz r s h :
+  receiver c d (mkRSx (RpHash p leaf old sz r) left st names sch op) (TrHash digest s h) =
+  tr_r_hash digest hx (mkRSx (RpHash p leaf old sz r) left st names sch op) p leaf old sz r s h.
 Proof. reflexivity. Qed.
 
-Lemma rcv_over c d left st names sch op p leaf old r :
-  receiver c d (mkRSx (RpHash p leaf old r) left st names sch op) (TrHashOver digest) =
-  tr_r_over digest (mkRSx (RpHash p leaf old r) left st names sch op) p leaf old r.
+Lemma rcv_over c d left st names sch op p leaf old sz r :
+  receiver c d (mkRSx (RpHash p leaf old sz r) left st names sch op) (TrHashOver digest) =
+  tr_r_over digest (mkRSx (RpHash p leaf old sz r) left st names sch op) p leaf old sz r.
 Proof. reflexivity. Qed.
 
 Lemma skipn_app_len {A} (a b : list A) : skipn (length a) (a ++ b) = b.
@@ -697,11 +699,11 @@ Lemma skipn_len_nil {A} (a : list A) : skipn (length a) a = [].
 Proof. induction a as [|x a IH]; [reflexivity | exact IH]. Qed.
 
 (* the receiver takes a run of HASH records: one step of Resume.recv_hashes each, the answers it appends *)
-Lemma recv_hash_loop c d p leaf old left st names sch op : forall hs s r r' q r2s log,
+Lemma recv_hash_loop c d p leaf old sz left st names sch op : forall hs s r r' q r2s log,
   Resume.recv_hashes B hx old hs r = Resume.RBlocked r' ->
   runf (length hs) c d
-    (mkConf digest s (mkRSx (RpHash p leaf old r) left st names sch op) (map hmsg_of hs ++ q) r2s log) =
-  mkConf digest s (mkRSx (RpHash p leaf old r') left st names sch op) q
+    (mkConf digest s (mkRSx (RpHash p leaf old sz r) left st names sch op) (map hmsg_of hs ++ q) r2s log) =
+  mkConf digest s (mkRSx (RpHash p leaf old sz r') left st names sch op) q
     (r2s ++ map hack_of (skipn (length (Resume.r_acks r)) (Resume.r_acks r')))
     (log ++ tag_out false (map hack_of (skipn (length (Resume.r_acks r)) (Resume.r_acks r')))).
 Proof.
@@ -799,6 +801,9 @@ Qed.
 Lemma json_of_json_names c : tr_json_names c = true -> tr_json c = true.
 Proof. unfold tr_json. intros ->. reflexivity. Qed.
 
+Lemma payload_size c e : tr_json c = true -> tr_p_size (tr_payload c e) = te_size e.
+Proof. unfold tr_payload. intros ->. reflexivity. Qed.
+
 Lemma snd_name_target c e sc rest names nm sz : tr_json_names c = true ->
   sender c (mkSS SpName ((e, sc) :: rest) names) (TrSuccTarget digest nm sz) =
   tr_s_named digest hx ahdr c (mkSS SpName ((e, sc) :: rest) names) e sc rest nm sz.
@@ -867,13 +872,18 @@ Proof.
   assert (Hpre : forall (ph : tr_rphase) rl rn rs q r2s lg,
     runf (length (tr_resume_pre digest c e)) c d
       (mkConf digest rs
-         (mkRSx (if tc_proto c <? Consts.tr_proto_resume_nosize then RpHSize (tr_payload c e) leaf old else RpHash (tr_payload c e) leaf old Resume.r_init) rl st rn (sc :: map snd ess) None)
+         (mkRSx (if tc_proto c <? Consts.tr_proto_resume_nosize then RpHSize (tr_payload c e) leaf old else RpHash (tr_payload c e) leaf old (tr_p_size (tr_payload c e)) Resume.r_init) rl st rn (sc :: map snd ess) None)
          (tr_resume_pre digest c e ++ q) r2s lg) =
-    mkConf digest rs (mkRSx (RpHash (tr_payload c e) leaf old Resume.r_init) rl st rn (sc :: map snd ess) None) q r2s lg).
-  { intros _ rl rn rs q r2s lg. unfold tr_resume_pre. destruct (tc_proto c <? Consts.tr_proto_resume_nosize); [|reflexivity].
+    mkConf digest rs (mkRSx (RpHash (tr_payload c e) leaf old (te_size e) Resume.r_init) rl st rn (sc :: map snd ess) None) q r2s lg).
+  { intros _ rl rn rs q r2s lg. unfold tr_resume_pre. destruct (tc_proto c <? Consts.tr_proto_resume_nosize); [|rewrite (payload_size c e (json_of_json_names c Hj)); reflexivity].
     cbn [length app]. rewrite (run_one _ _ _ _ (step_recv' _ _ _ _ _ _ _ _)), rcv_hsize. cbn [fst snd]. rewrite !app_nil_r. reflexivity. }
   assert (Hacksrst : Resume.r_acks rst = Proofs.Resume.acks_of hx src old l) by exact Ea.
   assert (Hmrst : Z.to_nat (Resume.r_mstep rst) = m) by (rewrite Emr; lia).
+  (* what the receiver expects the rest to measure is what the sender announces *)
+  assert (Hrestm : (Z.of_N (te_size e) - Z.of_nat m)%Z = Z.of_N (te_size f)).
+  { destruct (Proofs.Resume.agreed_good B hx hash_B_pos src old l size Hall) as [_ Hle]. fold m in Hle.
+    unfold f, te_size. cbn [tr_rem_entry te_isdir]. rewrite Hd, rem_entry_data. fold src.
+    rewrite skipn_length, Nat2Z.id. unfold size in Hle. lia. }
   destruct (Nat.eqb_spec size 0) as [Hz|Hnz].
   - (* nothing to compare: Over and the SIZE of the whole file at once *)
     assert (Hl : l = []).
@@ -887,8 +897,9 @@ Proof.
     rewrite run_add, (run_one _ _ _ _ (step_recv' _ _ _ _ _ _ _ _)), rcv_over. unfold tr_r_over.
     cbn [fst snd rs_left rs_st rs_names rs_sched]. cbn in Hloop. inversion Hloop as [Hrst]. rewrite <- Hrst in *.
     rewrite app_nil_r, Hf0.
-    rewrite run_add, (file_tail_v2 c d (tr_payload c e) f sc ess _ _ _ _ _ _ _ Hp Ht); [| apply (eq_trans (f_equal bytes_ok (rem_entry_data e _))), bytes_ok_skipn, Hb | reflexivity|].
+    rewrite run_add, (file_tail_v2 c d (tr_payload c e) f sc ess _ _ _ _ _ _ _ Hp Ht); [| apply (eq_trans (f_equal bytes_ok (rem_entry_data e _))), bytes_ok_skipn, Hb | reflexivity| |].
     2:{ rewrite payload_archive, Hsub, andb_false_r. discriminate. }
+    2:{ unfold tr_rest_mismatch. cbn [rs_open]. rewrite ?Hrst0, Emr, Hrestm, Z.eqb_refl. cbn [negb]. rewrite !andb_false_r. reflexivity. }
     erewrite (md5_steps c d (tr_payload c e) f sc ess (length ess) st _ (map snd ess)); [| | reflexivity | reflexivity].
     + unfold name_reply. rewrite Hj. f_equal. rewrite !tag_out_app. norm_log. reflexivity.
     + unfold tr_complete. cbn [rs_open rs_st]. rewrite E1. reflexivity.
@@ -899,7 +910,7 @@ Proof.
     replace (length l + 1 + (length (Proofs.Resume.acks_of hx src old l) + (tail_steps c f sc + 2)))%nat
       with (length (map (Proofs.Resume.mk hx src) l) + (1 + (length (Proofs.Resume.acks_of hx src old l) + (tail_steps c f sc + 2))))%nat
       by (rewrite map_length; lia).
-    rewrite run_add, (recv_hash_loop c d (tr_payload c e) leaf old _ _ _ _ _ _ _ _ rst _ _ _ Hloop).
+    rewrite run_add, (recv_hash_loop c d (tr_payload c e) leaf old _ _ _ _ _ _ _ _ _ rst _ _ _ Hloop).
     cbn [Resume.r_init Resume.r_acks length skipn]. rewrite Hacksrst. cbn [app].
     rewrite run_add, (run_one _ _ _ _ (step_recv' _ _ _ _ _ _ _ _)), rcv_over. unfold tr_r_over.
     cbn [fst snd rs_left rs_st rs_names rs_sched]. rewrite app_nil_r.
@@ -910,8 +921,9 @@ Proof.
     change 0%Z with (Z.of_nat 0).
     rewrite (send_hacks c d e sc ess _ _ src old size l 0 [] _ Hincr Hall), Hverd. unfold after_hacks. fold m f.
     rewrite Hmrst.
-    rewrite run_add, (file_tail_v2 c d (tr_payload c e) f sc ess _ _ _ _ _ _ _ Hp Ht); [| apply (eq_trans (f_equal bytes_ok (rem_entry_data e _))), bytes_ok_skipn, Hb | reflexivity|].
+    rewrite run_add, (file_tail_v2 c d (tr_payload c e) f sc ess _ _ _ _ _ _ _ Hp Ht); [| apply (eq_trans (f_equal bytes_ok (rem_entry_data e _))), bytes_ok_skipn, Hb | reflexivity| |].
     2:{ rewrite payload_archive, Hsub, andb_false_r. discriminate. }
+    2:{ unfold tr_rest_mismatch. cbn [rs_open]. rewrite ?Hrst0, Emr, Hrestm, Z.eqb_refl. cbn [negb]. rewrite !andb_false_r. reflexivity. }
     erewrite (md5_steps c d (tr_payload c e) f sc ess (length ess) st _ (map snd ess)); [| | reflexivity | reflexivity].
     + unfold name_reply. rewrite Hj. f_equal. rewrite !tag_out_app. norm_log. reflexivity.
     + unfold tr_complete. cbn [rs_open rs_st]. rewrite E1. reflexivity.
@@ -968,17 +980,17 @@ Proof.
   assert (Hpre : forall rl rn rs q r2s lg,
     runf (length (tr_resume_pre digest c e)) c d
       (mkConf digest rs
-         (mkRSx (if tc_proto c <? Consts.tr_proto_resume_nosize then RpHSize (tr_payload c e) leaf old else RpHash (tr_payload c e) leaf old Resume.r_init) rl st rn (sc :: map snd ess) None)
+         (mkRSx (if tc_proto c <? Consts.tr_proto_resume_nosize then RpHSize (tr_payload c e) leaf old else RpHash (tr_payload c e) leaf old (tr_p_size (tr_payload c e)) Resume.r_init) rl st rn (sc :: map snd ess) None)
          (tr_resume_pre digest c e ++ q) r2s lg) =
-    mkConf digest rs (mkRSx (RpHash (tr_payload c e) leaf old Resume.r_init) rl st rn (sc :: map snd ess) None) q r2s lg).
-  { intros rl rn rs q r2s lg. unfold tr_resume_pre. destruct (tc_proto c <? Consts.tr_proto_resume_nosize); [|reflexivity].
+    mkConf digest rs (mkRSx (RpHash (tr_payload c e) leaf old (te_size e) Resume.r_init) rl st rn (sc :: map snd ess) None) q r2s lg).
+  { intros rl rn rs q r2s lg. unfold tr_resume_pre. destruct (tc_proto c <? Consts.tr_proto_resume_nosize); [|rewrite (payload_size c e (json_of_json_names c Hj)); reflexivity].
     cbn [length app]. rewrite (run_one _ _ _ _ (step_recv' _ _ _ _ _ _ _ _)), rcv_hsize. cbn [fst snd]. rewrite !app_nil_r. reflexivity. }
   rewrite run_add, Hpre.
   rewrite app_length. cbn [length]. rewrite map_length.
   replace (length l + 1 + length (Proofs.Resume.acks_of hx src old l))%nat
     with (length (map (Proofs.Resume.mk hx src) l) + (1 + length (Proofs.Resume.acks_of hx src old l)))%nat
     by (rewrite map_length; lia).
-  rewrite run_add, (recv_hash_loop c d (tr_payload c e) leaf old _ _ _ _ _ _ _ _ rst _ _ _ Hloop).
+  rewrite run_add, (recv_hash_loop c d (tr_payload c e) leaf old _ _ _ _ _ _ _ _ _ rst _ _ _ Hloop).
   cbn [Resume.r_init Resume.r_acks length skipn]. rewrite Hacksrst. cbn [app].
   rewrite run_add, (run_one _ _ _ _ (step_recv' _ _ _ _ _ _ _ _)), rcv_over. unfold tr_r_over.
   cbn [fst snd rs_left rs_st rs_names rs_sched]. rewrite app_nil_r.
@@ -1012,7 +1024,7 @@ Proof.
   unfold tr_r_phase. cbn [rs_st rs_names rs_phase rs_left rs_sched rs_open fst snd app].
   rewrite (step_send' _ _ _ _ _ _ _), (snd_name_target c e sc ess names ln _ Hj).
   unfold tr_s_named. rewrite Hj, Hsub, Ef. cbn [andb ss_names]. unfold tr_s_size. rewrite <- Hsz. cbn [fst snd].
-  rewrite run_add, (file_tail_v2 c d (tr_payload c e) f sc ess _ _ _ _ _ None _ Hp Ht Hb Hdf).
+  rewrite run_add, (file_tail_v2 c d (tr_payload c e) f sc ess _ _ _ _ _ None _ Hp Ht Hb Hdf); [| |reflexivity].
   2:{ intros _. rewrite (payload_aid c e Hjs). eauto. }
   erewrite (md5_steps c d (tr_payload c e) f sc ess (length ess) st _ (map snd ess)); [| | reflexivity | reflexivity].
   - unfold arch_log, name_reply. rewrite Hj. f_equal. norm_log. reflexivity.
